@@ -70,3 +70,7 @@ add("C18", "exhaustive enumeration of tree shapes x leaf kinds x event-type orde
     "The permutation sets are enumerated completely for up to 4 leaves; the emitted spin factors, lineshapes (kind, L, mass indices) and counts are parsed from the generated text of both languages and compared with an independent prediction for every supported spin structure.",
     "Trusted: brute-force permutation reference, the enum table transcribed from upstream's pinned reference output (cross-checked at run time), spin classes of the pinned pool, the regex reader pbt/goofit_read.py.",
     "DESIGN.md 4 C18")
+add("C19", "differential between the two back ends: C++ text read by a regex/bracket reader vs Python text executed against a recording stand-in for goofit; shipped model + Hypothesis four-body files; print-vs-string and command-line comparisons",
+    "Both outputs of the same input are reduced to model records (constants, variables with fixedness, arrays, amplitudes with coefficients, spin factors, lineshapes) and compared field by field; declared-before-use is checked in both; the Python text is compiled and run.",
+    "Trusted: pbt/goofit_read.py, pbt/stub/goofit.py (names and call shapes of the GooFit API only; GooFit itself is not installed). K-matrix scalars the input does not define may stay undeclared (the property is conditional).",
+    "DESIGN.md 4 C19")
